@@ -14,8 +14,8 @@ from . import unitspec
 
 
 def run(ctx):
-    from .configtime import no_state_outside_objects as _no_state
-    _no_state(ctx, 'C06.R1', classes=('Unit', 'Substance'))
+    from .configtime import derived_values as _derived
+    _derived(ctx, 'C06.R1', ('Unit', 'Substance'))
     from .configtime import no_identity_test_against_literals as _no_is_literal
     _no_is_literal(ctx, 'C06.R1', classes=('Unit', 'Substance'))
     from .configtime import config_file_precedence as _cfgfile
